@@ -1432,6 +1432,8 @@ fn function_output_type(input: Span) -> IResult<Span, Type> {
 }
 
 fn base_type(input: Span) -> IResult<Span, Type> {
+    #[cfg(feature = "verif")]
+    crate::verif::tick();
     alt((
         tuple_type,
         partial_type,  // Must come before grouping parentheses to have priority
@@ -1467,6 +1469,8 @@ fn intersection_type(input: Span) -> IResult<Span, Type> {
 }
 
 fn type_definition(input: Span) -> IResult<Span, Type> {
+    #[cfg(feature = "verif")]
+    crate::verif::tick();
     alt((
         function_type,
         map(
@@ -2089,6 +2093,8 @@ fn as_pattern(input: Span) -> IResult<Span, Match> {
 }
 
 fn match_pattern(input: Span) -> IResult<Span, Match> {
+    #[cfg(feature = "verif")]
+    crate::verif::tick();
     alt((
         // Variable pin with & prefix: &name checks against an existing variable's value.
         map(preceded(char('&'), spanned(identifier)), |(span, name)| {
@@ -2208,6 +2214,8 @@ fn reference_term(input: Span) -> IResult<Span, Term> {
 }
 
 fn primary(input: Span) -> IResult<Span, Term> {
+    #[cfg(feature = "verif")]
+    crate::verif::tick();
     alt((
         // String terms (before literals to handle quotes)
         string_term,
